@@ -295,6 +295,129 @@ fn fam_lzma2(ctx: &CaseCtx, cov: &mut Cov) -> CaseOut {
     out
 }
 
+/// Payloads CONSTRUCTED so that the range coder's range register is exactly 2^24
+/// after the last symbol (the boundary of the normalisation test `range < 2^24`;
+/// about 3e-6 per random payload): a bounded search over random tiny programs (the encoder
+/// model tells the final range without running lzma-rs).
+fn fam_exact_range(ctx: &CaseCtx, cov: &mut Cov) -> CaseOut {
+    use crate::refmodel::lzma::{Encoder, Model, RcEnc};
+    let mut out = CaseOut::default();
+    let mut rng = ctx.rng();
+    let props = Props::new(0, 0, rng.below(5) as u32);
+    #[derive(Clone)]
+    struct Own {
+        model: Model,
+        hist: Vec<u8>,
+        rc: RcEnc,
+    }
+    fn push(o: &mut Own, s: &Sym) {
+        let rc = std::mem::take(&mut o.rc);
+        let mut e = Encoder::new(&mut o.model, &mut o.hist);
+        e.rc = rc;
+        let _ = e.push(s);
+        o.rc = e.rc;
+    }
+    // random tiny programs until one leaves the range register at exactly 2^24
+    let mut found: Option<Own> = None;
+    let mut tries = 0u64;
+    while tries < 4_000_000 {
+        tries += 1;
+        let mut o = Own { model: Model::new(props), hist: Vec::new(), rc: RcEnc::new() };
+        let n = rng.range(1, 6);
+        for k in 0..n {
+            let s = if k > 0 && rng.chance(1, 4) {
+                let d = rng.range(1, o.hist.len() as u64) as u32;
+                Sym::Match { dist: d, len: rng.range(2, 12) as u32 }
+            } else if k > 0 && rng.chance(1, 8) {
+                Sym::ShortRep
+            } else {
+                Sym::Lit(rng.byte())
+            };
+            push(&mut o, &s);
+        }
+        if o.rc.range() == 0x0100_0000 {
+            found = Some(o);
+            break;
+        }
+    }
+    cov.name("exact_range.search_tries", tries);
+    let mut own = match found {
+        Some(o) => o,
+        None => {
+            cov.name("exact_range.not_found", 1);
+            return out;
+        }
+    };
+    cov.name("exact_range.payloads_with_final_range_2^24", 1);
+    own.rc.finish();
+    let payload = own.rc.out.clone();
+    let plain = own.hist.clone();
+    let len = plain.len() as u64;
+    let t = vec![0x5Au8, 0, 0xFF, 1];
+    // sized LZMA: header size / provided size / raw
+    for rk in [ReaderKind::Slice, ReaderKind::Cursor, ReaderKind::Buf(1), ReaderKind::Buf(8192)] {
+        for api in 0..3usize {
+            let sink = SharedSink::new();
+            let obs = sut::new_obs(u64::MAX);
+            let (c, input, want) = match api {
+                0 => {
+                    let mut f = sut::lzma_header(props.byte(), 4096, Some(Some(len)));
+                    f.extend_from_slice(&payload);
+                    let w = f.len();
+                    f.extend_from_slice(&t);
+                    (sut::decode(Entry::Lzma, &f, &sut::default_options(), rk, &sink, &obs), f, w)
+                }
+                1 => {
+                    let mut f = sut::lzma_header(props.byte(), 4096, None);
+                    f.extend_from_slice(&payload);
+                    let w = f.len();
+                    f.extend_from_slice(&t);
+                    (sut::decode(Entry::Lzma, &f, &sut::opts(UnpackedSize::UseProvided(Some(len)), None, false), rk, &sink, &obs), f, w)
+                }
+                _ => {
+                    let mut f = payload.clone();
+                    let w = f.len();
+                    f.extend_from_slice(&t);
+                    match sut::raw_lzma_new(props.lc, props.lp, props.pb, 4096, Some(len), None) {
+                        Ok(mut d) => (sut::raw_lzma_decompress(&mut d, &f, rk, &sink, &obs), f, w),
+                        Err(_) => continue,
+                    }
+                }
+            };
+            out.evals += 1;
+            out.nontrivial.push(case_hash(&[&input, &[api as u8], rk.name().as_bytes()]));
+            judge_exact(&mut out, cov, api, rk, &c.verdict, c.consumed, want, input.len(), &sink.bytes(), &plain, &input);
+        }
+    }
+    // the same payload as the only chunk of an LZMA2 stream, alone and inside .xz
+    if !payload.is_empty() && payload.len() <= 65536 && !plain.is_empty() {
+        let mut l2 = vec![0xE0u8 | (((plain.len() - 1) >> 16) as u8)];
+        l2.extend_from_slice(&(((plain.len() - 1) & 0xFFFF) as u16).to_be_bytes());
+        l2.extend_from_slice(&((payload.len() - 1) as u16).to_be_bytes());
+        l2.push(props.byte());
+        l2.extend_from_slice(&payload);
+        l2.push(0);
+        let want = l2.len();
+        let mut input = l2.clone();
+        input.extend_from_slice(&t);
+        let sink = SharedSink::new();
+        let c = sut::decode(Entry::Lzma2, &input, &sut::default_options(), ReaderKind::Slice, &sink, &sut::new_obs(u64::MAX));
+        out.evals += 1;
+        judge_exact(&mut out, cov, 3, ReaderKind::Slice, &c.verdict, c.consumed, want, input.len(), &sink.bytes(), &plain, &input);
+        let b = BlockSpec::new(l2, plain.clone(), 1, &BlockOpts::default());
+        let file = XzSpec::new(1, vec![b]).serialize().0;
+        let sink = SharedSink::new();
+        let c = sut::decode(Entry::Xz, &file, &sut::default_options(), ReaderKind::Slice, &sink, &sut::new_obs(u64::MAX));
+        out.evals += 1;
+        cov.inc("api", 5);
+        if !c.verdict.is_ok() || sink.bytes() != plain {
+            out.violate("C11/lzma2-in-xz", format!("chunk whose coder ends with range == 2^24, inside .xz: {}", c.verdict.short()), J::obj().set("input_hex", J::s(crate::util::hex_trunc(&file, 2048))));
+        }
+    }
+    out.sample = Some(J::obj().set("what", J::s("payload constructed to end with range == 2^24")).set("payload_len", J::i(payload.len())).set("search_tries", J::i(tries)));
+    out
+}
+
 fn label(group: &str, i: u32) -> String {
     match group {
         "api" => API_NAMES[i as usize].to_string(),
@@ -305,6 +428,9 @@ fn label(group: &str, i: u32) -> String {
 
 fn floors(_: Tier, cov: &Cov) -> Vec<String> {
     let mut m = Vec::new();
+    if cov.get_named("exact_range.payloads_with_final_range_2^24") < 10 {
+        m.push("fewer than 10 payloads with final range == 2^24 constructed".into());
+    }
     if cov.group_nonzero("api") < 6 || cov.group_nonzero("trailing") < 5 {
         m.push("not all entry points / trailing kinds exercised".into());
     }
@@ -315,7 +441,7 @@ pub fn monitor(tier: Tier) -> Monitor {
     Monitor {
         id: "C11",
         level: "exploration",
-        rule: "cases = valid payload (LZMA size-bounded via header / provided size / raw decoder; LZMA2 via one-shot / raw decoder / embedded in .xz) || trailing bytes (none, 0x00, 0xFF, random 1-64, a second copy of the payload) x 6 reader kinds; the reader's logical position after Ok must equal the payload length computed by the reference encoder; conversely marker-terminated .lzma and .xz with trailing bytes must fail; distinct by hash of (input, api, reader)",
+        rule: "cases = valid payload (incl. payloads constructed so that the range coder's range register is exactly 2^24 after the last symbol; LZMA size-bounded via header / provided size / raw decoder; LZMA2 via one-shot / raw decoder / embedded in .xz) || trailing bytes (none, 0x00, 0xFF, random 1-64, a second copy of the payload) x 6 reader kinds; the reader's logical position after Ok must equal the payload length computed by the reference encoder; conversely marker-terminated .lzma and .xz with trailing bytes must fail; distinct by hash of (input, api, reader)",
         assumptions: vec![
             "payload length = reference encoder output (eager normalisation + 5-byte flush), which the self-check shows liblzma's LZMA2 decoder accepts only when exact".into(),
             "size-bounded streams that also carry a marker are excluded (where the payload ends is ambiguous)".into(),
@@ -323,6 +449,7 @@ pub fn monitor(tier: Tier) -> Monitor {
         families: vec![
             Family { name: "lzma", count: tier.pick(40_000, 800_000), priority: false, enumerated: false, run: fam_lzma },
             Family { name: "lzma2", count: tier.pick(30_000, 600_000), priority: false, enumerated: false, run: fam_lzma2 },
+            Family { name: "exact_final_range", count: tier.pick(48, 800), priority: true, enumerated: false, run: fam_exact_range },
         ],
         label,
         floors,
